@@ -211,7 +211,8 @@ def real_one(ctx: Ctx, b, model: str, method: str, tight: bool, tick: float, rng
 
     def ref(k: int, t: int):
         if (k, t) not in ref_cache:
-            ref_cache[(k, t)] = np.asarray(dyn.propagate(0.0, t * tick, x0[:, k].copy(), scheduled_events=events()), dtype=float)
+            with guard(patience):
+                ref_cache[(k, t)] = np.asarray(dyn.propagate(0.0, t * tick, x0[:, k].copy(), scheduled_events=events()), dtype=float)
         return ref_cache[(k, t)]
 
     def tol(k: int, t: int):
@@ -317,7 +318,8 @@ def real_one(ctx: Ctx, b, model: str, method: str, tight: bool, tick: float, rng
         dyn2 = make_dyn(model, method, tight, jd0 - shift / 86400.0, rich)
         t_end = b["hist"][-1]["times"][-1]
         for k in range(kk):
-            a1 = np.asarray(dyn2.propagate(shift, shift + t_end * tick, x0[:, k].copy(), scheduled_events=events(shift)), dtype=float)
+            with guard(patience):
+                a1 = np.asarray(dyn2.propagate(shift, shift + t_end * tick, x0[:, k].copy(), scheduled_events=events(shift)), dtype=float)
             a2 = ref(k, t_end)
             tr, tv = tol(k, t_end)
             dr, dv = np.abs(a1[:3] - a2[:3]).max(), np.abs(a1[3:] - a2[3:]).max()
@@ -361,7 +363,15 @@ def real_replay(ctx: Ctx, behs, rng: random.Random):
             b = groups[key][rng.randrange(len(groups[key]))]
         cfgname = f"{model}/{method}/{'tight' if tight else 'shipped'}"
         stats["by_config"][cfgname] = stats["by_config"].get(cfgname, 0) + 1
-        real_one(ctx, b, model, method, tight, tick, random.Random(rng.getrandbits(32)), stats, traces)
+        try:
+            real_one(ctx, b, model, method, tight, tick, random.Random(rng.getrandbits(32)), stats, traces)
+        except Hang:     # a separate single-column reference call did not return
+            sig = f"real:{model}:propagate-does-not-terminate"
+            stats["violations"] += 1
+            stats["by_signature"][sig] = stats["by_signature"].get(sig, 0) + 1
+            ctx.violation(sig, f"(b) real {model}/{method}: an unsplit single-column propagate call (reference of the relation) did "
+                          "not return", {"part": "real", "model": model, "method": method, "tick_s": tick,
+                                         "calls": [[c["kind"], c["times"]] for c in b["hist"]], "burn_tick": b["burn"]["ts"]})
         K.flush_events()
         if any("does-not-terminate" in sig for sig in stats["by_signature"]):
             stats["aborted_after_hang"] = True      # every further call would cost the full patience
